@@ -351,6 +351,21 @@ fn st_lzma2(data: &[u8], dict: u32, chunk: u64) -> Vec<u8> {
     w.finish().unwrap()
 }
 
+/// An LZMA2 stream of several independent runs of chunks (each `seg` bytes of the data are encoded by their own
+/// single-threaded writer, so each run starts with a dictionary reset): `LZMA2ReaderMT` cuts it into one work
+/// unit per run.  Also returns the offsets at which the runs start.
+fn st_lzma2_multi(data: &[u8], dict: u32, seg: usize) -> (Vec<u8>, Vec<usize>) {
+    let mut out = Vec::new();
+    let mut starts = Vec::new();
+    for part in data.chunks(seg.max(1)) {
+        let s = st_lzma2(part, dict, 1 << 20);
+        starts.push(out.len());
+        out.extend_from_slice(&s[..s.len() - 1]);
+    }
+    out.push(0);
+    (out, starts)
+}
+
 fn st_lzip(data: &[u8], dict: u32, member: u64) -> Vec<u8> {
     let mut opts = LZIPOptions { lzma_options: lz_opts(dict), member_size: None };
     opts.set_member_size(NonZeroU64::new(member));
@@ -380,6 +395,30 @@ fn scenarios(prop: &str, rng: &mut Rng, thorough: bool) -> Vec<Scenario> {
                 let parts = { let (_, p) = gen_partition(rng, data.len()); p };
                 v.push(Scenario { name: format!("lzma2w-{size}-w{workers}"), kind: "lzma2w", input: data.clone(), writes: parts.clone(), flush_at: if rng.chance(1, 2) { Some(0) } else { None }, ..base.clone() });
                 v.push(Scenario { name: format!("lzipw-{size}-w{workers}"), kind: "lzipw", input: data.clone(), writes: parts.clone(), ..base.clone() });
+            }
+            if (prop == "C08" || prop == "C09" || prop == "C10") && size > 0 {
+                // LZMA2 streams that really consist of several work units (the single-threaded writer resets the
+                // dictionary only once, so `l2` above is ONE unit): valid, a damaged unit in the middle, cut inside a
+                // unit, cut directly behind the control byte that opens a unit, dropped early
+                let (multi, starts) = st_lzma2_multi(&data, dict, (data.len() / 5).max(600));
+                if prop != "C09" {
+                    v.push(Scenario { name: format!("lzma2r-multi-valid-{size}-w{workers}"), kind: "lzma2r", input: multi.clone(), expect: Some(data.clone()), ..base.clone() });
+                }
+                if prop == "C10" {
+                    for drop_at in [1usize, 4] {
+                        v.push(Scenario { name: format!("lzma2r-multi-drop{drop_at}-{size}-w{workers}"), kind: "lzma2r", input: multi.clone(), expect: Some(data.clone()), reads_before_drop: Some(drop_at), ..base.clone() });
+                    }
+                }
+                if prop != "C08" && starts.len() >= 3 {
+                    let mid = starts[starts.len() / 2];
+                    let mut m = multi.clone();
+                    let p = mid + 7 + rng.below(40) as usize;
+                    m[p] ^= 0x5A;
+                    v.push(Scenario { name: format!("lzma2r-multi-flip@{p}-{size}-w{workers}"), kind: "lzma2r", input: m, expect: None, may_ok: true, ..base.clone() });
+                    v.push(Scenario { name: format!("lzma2r-multi-truncctl-{size}-w{workers}"), kind: "lzma2r", input: multi[..mid + 1].to_vec(), expect: None, ..base.clone() });
+                    v.push(Scenario { name: format!("lzma2r-multi-truncmid-{size}-w{workers}"), kind: "lzma2r", input: multi[..mid + 40].to_vec(), expect: None, ..base.clone() });
+                    v.push(Scenario { name: format!("lzma2r-multi-noend-{size}-w{workers}"), kind: "lzma2r", input: multi[..multi.len() - 1].to_vec(), expect: None, ..base.clone() });
+                }
             }
             if (prop == "C08" || prop == "C10") && size > 0 {
                 // a source that delivers only a few bytes per read call (legal for io::Read): same bytes as the
